@@ -882,7 +882,7 @@ def _simplify_function_call(call: HplFunctionCall) -> HplExpression:
                     n += 1
                 if arg.exclude_min:
                     n -= 1
-                return HplLiteral.number(n)
+                return HplLiteral.number(max(n, 0))
         elif isinstance(arg, HplLiteral) and isinstance(arg.value, str):
             return HplLiteral.number(len(arg.value))
 
